@@ -1900,10 +1900,8 @@ bool tNMEA2000::TestHandleTPMessage(unsigned long PGN, unsigned char Source, uns
         if ( !IsValidDevice(iDev) ) break; // Should never fail
         N2kMsgDbgStart("Got TP CTS"); N2kMsgDbgln(MsgIndex);
         if ( IsBroadcast(Devices[iDev].PendingTPMsg.Destination) ) break; // We should not get controls for broadcast TP msg
-        if ( Devices[iDev].PendingTPMsg.PGN!=TransportPGN ) { // Some failure on communication
-          EndSendTPMessage(iDev); // Should we retry from beginning?
-          break;
-        }
+        // Control for some other transfer (e.g. late response to an abandoned one) must not disturb the one in progress
+        if ( Devices[iDev].PendingTPMsg.PGN!=TransportPGN || Devices[iDev].PendingTPMsg.Destination!=Source ) break;
         // Now respond with next data packets
         if ( buf[1]>0 ) { // Note that with 0, receiver wants to have break
           if ( buf[2]-1!=Devices[iDev].NextDTSequence ) { // We got sequence error
@@ -1921,12 +1919,14 @@ bool tNMEA2000::TestHandleTPMessage(unsigned long PGN, unsigned char Source, uns
         if ( !IsValidDevice(iDev) ) break; // Should never fail
         N2kMsgDbgStart("Got TP ACK"); N2kMsgDbgln(MsgIndex);
         if ( IsBroadcast(Devices[iDev].PendingTPMsg.Destination) ) break; // We should not get controls for broadcast TP msg
+        if ( Devices[iDev].PendingTPMsg.PGN!=TransportPGN || Devices[iDev].PendingTPMsg.Destination!=Source ) break; // Not for transfer in progress
         EndSendTPMessage(iDev);
         break;
       case TP_CM_Abort:
         if ( !IsValidDevice(iDev) ) break; // Should never fail
         N2kMsgDbgStart("Got TP Abort"); N2kMsgDbgln(MsgIndex);
         if ( IsBroadcast(Devices[iDev].PendingTPMsg.Destination) ) break; // We should not get controls for broadcast TP msg
+        if ( Devices[iDev].PendingTPMsg.PGN!=TransportPGN || Devices[iDev].PendingTPMsg.Destination!=Source ) break; // Not for transfer in progress
         EndSendTPMessage(iDev);
         break;
       default:
